@@ -166,7 +166,11 @@ def strat_multi(draw, tier="quick"):
     for nm, v in members[1]["truth"].items():
         truth.setdefault(nm, v)
     return {"members": members, "truth": truth, "minimizer": mini, "fix": draw(st.one_of(st.none(), st.integers(0, 5))),
-            "far": draw(st.lists(st.floats(-5, 5), min_size=4, max_size=4))}
+            "far": draw(st.lists(st.floats(-5, 5), min_size=4, max_size=4)),
+            # a simple constraint declared on ONE member (an extra measurement row of the joint system) and an uncertainty shared by both members (same matrix in
+            # all four blocks of the joint covariance; needs members of equal size: the longer one is cut)
+            "mcon": draw(st.one_of(st.none(), st.fixed_dictionaries({"member": st.integers(0, 1), "par": st.integers(0, 3), "shift": st.floats(-1, 1), "unc": st.floats(0.05, 0.5)}))),
+            "shared_rel": draw(st.one_of(st.none(), st.none(), st.floats(0.3, 1.5)))}
 
 
 def run_multi(case):
@@ -176,6 +180,14 @@ def run_multi(case):
     members = case["members"]
     truth = case["truth"]
     refs = []
+    shared_rel = case.get("shared_rel")
+    if shared_rel is not None:
+        n_min = min(len(m["x"]) for m in members)
+        if n_min < max(len(models.family(m["family"]).params) for m in members) + 1:
+            shared_rel = None
+        else:
+            for m in members:
+                m["x"], m["y"] = m["x"][:n_min], m["y"][:n_min]
     for m in members:
         F = models.family(m["family"])
         x = np.asarray(m["x"], float)
@@ -207,9 +219,31 @@ def run_multi(case):
     W = np.vstack(Ws)
     d = np.concatenate(ds)
     V = linalg.block_diag(*Vs)
+    shared_err = None
+    if shared_rel is not None:
+        shared_err = float(shared_rel * min(m["sigma"] for m in members))
+        n0 = refs[0].n
+        V = V + np.kron(np.ones((2, 2)), np.eye(n0) * shared_err ** 2)
+    n_data = len(d)
+    mcon = case.get("mcon")
+    con_name = None
+    if mcon is not None:
+        r_ = refs[mcon["member"]]
+        con_name = r_.names[mcon["par"] % len(r_.names)]
+        con_val = truth[con_name] * (1 + 0.2 * mcon["shift"]) + 0.05 * mcon["shift"]
+        con_unc = float(mcon["unc"]) * (abs(truth[con_name]) + 0.1)
+        row = np.zeros((1, len(names)))
+        row[0, names.index(con_name)] = 1.0
+        W = np.vstack([W, row])
+        d = np.concatenate([d, [con_val]])
+        V = linalg.block_diag(V, np.array([[con_unc ** 2]]))
     ev = np.linalg.eigvalsh(V)
     if ev.min() <= 0 or ev.max() / ev.min() > 1e6:
         raise Discard("ill-conditioned")
+    if mcon is not None and con_name in fixed:
+        # constraint on the fixed parameter: a constant, not declared at all here
+        W, d, V = W[:-1], d[:-1], V[:-1, :-1]
+        mcon = None
     for nm, v in fixed.items():
         d = d - W[:, names.index(nm)] * v
     fidx = [names.index(nm) for nm in free]
@@ -228,7 +262,11 @@ def run_multi(case):
     sd = np.sqrt(np.diag(C))
     with guard("build"):
         fits = [fs.build(m, apply_params=False) for m in members]
+        if mcon is not None and con_name not in fixed:
+            fits[mcon["member"]].add_parameter_constraint(con_name, con_val, con_unc)
         multi = kafe2.MultiFit(fits, minimizer=case["minimizer"])
+        if shared_err is not None:
+            multi.add_error(shared_err, fits=[0, 1], axis="y", name="shared_y")
     if list(multi.parameter_names) != names:
         raise Violation("multi-parameter-names", f"{multi.parameter_names} vs {names}")
     with guard("set/fix"):
@@ -237,7 +275,7 @@ def run_multi(case):
             multi.fix_parameter(nm, v)
     with guard("do_fit"):
         multi.do_fit()
-    logdet = float(np.linalg.slogdet(V)[1])
+    logdet = float(np.linalg.slogdet(V[:n_data, :n_data])[1])  # the determinant term belongs to the data covariance, constraints add their chi2 only
     _tol_check("multi", multi, names, p_hat, C, chi2, logdet, free, case["minimizer"], asym=False)
     # every member reports the sub-blocks
     for r, f in zip(refs, fits):
@@ -252,7 +290,8 @@ def run_multi(case):
         if np.any(np.abs(pc - C[np.ix_(idx, idx)]) > 0.01 * sc + 1e-300) or np.any(np.abs(pe - sd[idx]) > 0.01 * sd[idx] + 1e-300):
             raise Violation("member-covariance", f"member {r.names}: errors {pe.tolist()} cov {pc.tolist()} vs sub-block {C[np.ix_(idx, idx)].tolist()}")
     shared = len(names) < sum(len(r.names) for r in refs)
-    return {"nontrivial": shared and len(free) >= 2, "labels": sorted({case["minimizer"], "shared" if shared else "disjoint"} | ({"fixed"} if fixed else set()))}
+    return {"nontrivial": shared and len(free) >= 2, "labels": sorted({case["minimizer"], "shared" if shared else "disjoint"} | ({"fixed"} if fixed else set())
+                                                                   | ({"member_constraint"} if mcon is not None else set()) | ({"shared_uncertainty"} if shared_err is not None else set()))}
 
 
 SUBS = [
